@@ -153,6 +153,14 @@ pub fn uci_stream(args: &[String]) {
             let (moves, _) = rand_game(&mut rng, base, 14);
             let mut k = 0usize;
             while k <= moves.len() {
+                // now and then the GUI re-sends the game from a FEN that differs from the first one in its two counters only
+                // (same placement, side, rights, en-passant square): it is a different start position all the same
+                let head = if !start && rng.below(4) == 0 {
+                    let f: Vec<&str> = base.split(' ').collect();
+                    format!("position fen {} {} {} {} {} {}", f[0], f[1], f[2], f[3], rng.below(60), 1 + rng.below(200))
+                } else {
+                    head.clone()
+                };
                 let l = if k == 0 { head.clone() } else { format!("{head} moves {}", moves[..k].join(" ")) };
                 lines.push(l);
                 match rng.below(6) {
